@@ -480,3 +480,400 @@ Proof.
     as (coll & Hcv & Hreg).
   eexists _, coll. split; [|split; [exact Hcv|exact Hreg]]. discriminate.
 Qed.
+
+(* ---------- tori with a TR number (C04's torus law) ---------- *)
+From T4V Require C04.ProofsTorus.
+Module O4 := T4V.C04.ProofsTorus.
+Open Scope R_scope.
+
+(* the frame form of a torus card has exactly the card's equation *)
+Lemma torus_frame_eq x0 y0 z0 A B C ux uy uz (f : pointR -> R) :
+  (forall x y z,
+     S4.msense (M4.mkMS M4.KT (V4.mkV x0 y0 z0) (V4.mkV ux uy uz) [A; B; C] None) (V4.mkV x y z)
+     = f (x, y, z)) ->
+  forall P, S4.msense (M4.mkMS M4.KT (V4.mkV x0 y0 z0) (V4.mkV ux uy uz) [A; B; C] None) P = f (pt3 P).
+Proof. intros H [x y z]. apply H. Qed.
+
+Lemma tx_msense x0 y0 z0 A B C P :
+  S4.msense (M4.mkMS M4.KT (V4.mkV x0 y0 z0) (V4.mkV 1 0 0) [A; B; C] None) P = fM_tx RS x0 y0 z0 A B C (pt3 P).
+Proof.
+  apply torus_frame_eq. intros x y z.
+  unfold S4.msense, S4.perp2, S4.axial, S4.norm2, S4.dot, S4.vminus. cbn. unfold torus_f, ssq. cbn.
+  replace ((x - x0) * (x - x0) + (y - y0) * (y - y0) + (z - z0) * (z - z0) -
+           ((x - x0) * 1 + (y - y0) * 0 + (z - z0) * 0) * ((x - x0) * 1 + (y - y0) * 0 + (z - z0) * 0))
+    with ((y - y0) * (y - y0) + (z - z0) * (z - z0)) by ring.
+  replace ((x - x0) * 1 + (y - y0) * 0 + (z - z0) * 0) with (x - x0) by ring. reflexivity.
+Qed.
+Lemma ty_msense x0 y0 z0 A B C P :
+  S4.msense (M4.mkMS M4.KT (V4.mkV x0 y0 z0) (V4.mkV 0 1 0) [A; B; C] None) P = fM_ty RS x0 y0 z0 A B C (pt3 P).
+Proof.
+  apply torus_frame_eq. intros x y z.
+  unfold S4.msense, S4.perp2, S4.axial, S4.norm2, S4.dot, S4.vminus. cbn. unfold torus_f, ssq. cbn.
+  replace ((x - x0) * (x - x0) + (y - y0) * (y - y0) + (z - z0) * (z - z0) -
+           ((x - x0) * 0 + (y - y0) * 1 + (z - z0) * 0) * ((x - x0) * 0 + (y - y0) * 1 + (z - z0) * 0))
+    with ((x - x0) * (x - x0) + (z - z0) * (z - z0)) by ring.
+  replace ((x - x0) * 0 + (y - y0) * 1 + (z - z0) * 0) with (y - y0) by ring. reflexivity.
+Qed.
+Lemma tz_msense x0 y0 z0 A B C P :
+  S4.msense (M4.mkMS M4.KT (V4.mkV x0 y0 z0) (V4.mkV 0 0 1) [A; B; C] None) P = fM_tz RS x0 y0 z0 A B C (pt3 P).
+Proof.
+  apply torus_frame_eq. intros x y z.
+  unfold S4.msense, S4.perp2, S4.axial, S4.norm2, S4.dot, S4.vminus. cbn. unfold torus_f, ssq. cbn.
+  replace ((x - x0) * (x - x0) + (y - y0) * (y - y0) + (z - z0) * (z - z0) -
+           ((x - x0) * 0 + (y - y0) * 0 + (z - z0) * 1) * ((x - x0) * 0 + (y - y0) * 0 + (z - z0) * 1))
+    with ((x - x0) * (x - x0) + (y - y0) * (y - y0)) by ring.
+  replace ((x - x0) * 0 + (y - y0) * 0 + (z - z0) * 1) with (z - z0) by ring. reflexivity.
+Qed.
+
+(* one torus card: C04's law, with the written torus independent of the point *)
+Lemma torus_card_linked mn prm c u cp (f : pointR -> R) o b :
+  S4.rows_orthonormal b -> S4.norm2 u = 1 -> O4.torus_axis_ok (F4.tvec b u) ->
+  (exists cd, to_surface_mcnp RS mn prm = Ok cd /\ to_ms cd = Some (M4.mkMS M4.KT c u cp None)) ->
+  (forall P, S4.msense (M4.mkMS M4.KT c u cp None) P = f (pt3 P)) ->
+  exists t, card_tr_convert (C4.tr12 o b) mn prm = M4.Ok [(t, 1%Z)] /\
+    forall p', S4.t4val t (S4.to_main o b p') = f (pt3 p').
+Proof.
+  intros Hb Hu Hax (cd & H1 & H2) Hf.
+  assert (Hcv : card_tr_convert (C4.tr12 o b) mn prm
+                = M4.tr_convert RS (C4.tr12 o b) (M4.mkMS M4.KT c u cp None)).
+  { unfold card_tr_convert, card_tr_convert_g. rewrite H1. fold to_ms. rewrite H2. reflexivity. }
+  destruct (O4.frame_transform_torus o b c u cp None (V4.mkV 0 0 0) Hb Hu Hax) as (t & Ht & _).
+  exists t. split; [rewrite Hcv; exact Ht|]. intros p'.
+  destruct (O4.frame_transform_torus o b c u cp None p' Hb Hu Hax) as (t' & Ht' & Hv).
+  unfold C4.tr12 in *. rewrite Ht in Ht'. injection Ht' as <-. rewrite Hv. apply Hf.
+Qed.
+
+(* TX / TY / TZ x0 y0 z0 A B C with TR (O, B): if the moved axis is exactly a
+   coordinate axis or clearly not one (C04's torus_axis_ok), ONE torus is
+   written whose equation at the moved point is the card's equation at p' *)
+Theorem torus_tr_linked x0 y0 z0 A B C o b :
+  S4.rows_orthonormal b ->
+  (O4.torus_axis_ok (F4.tvec b (V4.mkV 1 0 0)) ->
+     exists t, card_tr_convert (C4.tr12 o b) M_TX [x0; y0; z0; A; B; C] = M4.Ok [(t, 1%Z)] /\
+       forall p', S4.t4val t (S4.to_main o b p') = fM_tx RS x0 y0 z0 A B C (pt3 p')) /\
+  (O4.torus_axis_ok (F4.tvec b (V4.mkV 0 1 0)) ->
+     exists t, card_tr_convert (C4.tr12 o b) M_TY [x0; y0; z0; A; B; C] = M4.Ok [(t, 1%Z)] /\
+       forall p', S4.t4val t (S4.to_main o b p') = fM_ty RS x0 y0 z0 A B C (pt3 p')) /\
+  (O4.torus_axis_ok (F4.tvec b (V4.mkV 0 0 1)) ->
+     exists t, card_tr_convert (C4.tr12 o b) M_TZ [x0; y0; z0; A; B; C] = M4.Ok [(t, 1%Z)] /\
+       forall p', S4.t4val t (S4.to_main o b p') = fM_tz RS x0 y0 z0 A B C (pt3 p')).
+Proof.
+  intros Hb. split; [|split]; intros Hax.
+  - apply (torus_card_linked _ _ (V4.mkV x0 y0 z0) (V4.mkV 1 0 0) [A; B; C] _ o b Hb); try assumption.
+    + unfold S4.norm2, S4.dot. cbn. ring.
+    + eexists. split; reflexivity.
+    + apply tx_msense.
+  - apply (torus_card_linked _ _ (V4.mkV x0 y0 z0) (V4.mkV 0 1 0) [A; B; C] _ o b Hb); try assumption.
+    + unfold S4.norm2, S4.dot. cbn. ring.
+    + eexists. split; reflexivity.
+    + apply ty_msense.
+  - apply (torus_card_linked _ _ (V4.mkV x0 y0 z0) (V4.mkV 0 0 1) [A; B; C] _ o b Hb); try assumption.
+    + unfold S4.norm2, S4.dot. cbn. ring.
+    + eexists. split; reflexivity.
+    + apply tz_msense.
+Qed.
+
+(* ---------- nine-entry P and the point-defined X / Y / Z in the link ---------- *)
+Lemma bridge_scale mn prm (f f' : pointR -> R) k :
+  0 < k -> (forall p, f p = k * f' p) ->
+  bridge mn prm (mkMsurf f None) -> bridge mn prm (mkMsurf f' None).
+Proof.
+  intros Hk Hf (c & s & H1 & H2 & H3 & H4). exists c, s.
+  split; [exact H1|]. split; [exact H2|]. split; [exact H3|]. intros P.
+  destruct (H4 P) as [Hn Hp]. unfold neg_sense, pos_sense in *. cbn [m_f m_sheet] in *.
+  rewrite Hf in Hn, Hp. split.
+  - rewrite Hn. split; intros [H _]; (split; [nra|exact I]).
+  - rewrite Hp. split; (intros [H|[]]; left; nra).
+Qed.
+
+Lemma bridge_same_card mn prm prm' ms :
+  to_surface_mcnp RS mn prm = to_surface_mcnp RS mn prm' -> bridge mn prm' ms -> bridge mn prm ms.
+Proof. intros E (c & s & H1 & H2). exists c, s. rewrite E. split; assumption. Qed.
+
+Lemma p9_bridge x1 y1 z1 x2 y2 z2 x3 y3 z3 :
+  let p1 := (x1, y1, z1) in let p2 := (x2, y2, z2) in let p3 := (x3, y3, z3) in
+  p3_guard (p3_normal RS p1 p2 p3) p1 ->
+  exists A B C D, p3_plane RS p1 p2 p3 = Some (A, B, C, D) /\
+    bridge M_P [x1; y1; z1; x2; y2; z2; x3; y3; z3] (mkMsurf (fM_p RS A B C D) None).
+Proof.
+  intros p1 p2 p3 Hg.
+  pose proof (orient_plane_ok (p3_normal RS p1 p2 p3) p1 Hg) as Hop.
+  pose proof Hg as (Hlen & _).
+  unfold p3_plane. destruct (p3_normal RS p1 p2 p3) as [[A B] C] eqn:En.
+  destruct Hop as (keep & Hkeep & Hop). rewrite Hkeep.
+  assert (Hm2 : 0 < mag2 RS (A, B, C)) by (pose proof e10_pos; lra).
+  assert (Hm : 0 < mag RS (A, B, C)) by (apply sqrt_lt_R0; exact Hm2).
+  assert (Hn : (A, B, C) <> (0, 0, 0)).
+  { intros E. injection E as -> -> ->. cbn in Hm2. lra. }
+  set (m := mag RS (A, B, C)) in *. set (D := scal RS (A, B, C) p1) in *.
+  assert (Hk : 0 < 1 / m) by (apply Rdiv_lt_0_compat; lra).
+  assert (Hmodel : plane_params_from_points RS p1 p2 p3 =
+                   Ok (scale4 (1 / m) (if keep then (A, B, C, D) else (- A, - B, - C, - D)))).
+  { unfold plane_params_from_points. rewrite model_normal, En. exact Hop. }
+  clearbody m D.
+  assert (Hz : forall v, 1 / m * v = 0 -> v = 0).
+  { intros v Hv. apply (Rmult_eq_compat_l m) in Hv. rewrite Rmult_0_r in Hv.
+    replace (m * (1 / m * v)) with v in Hv by (field; lra). exact Hv. }
+  assert (Hsame : forall a b c d,
+            plane_params_from_points RS p1 p2 p3 = Ok [a; b; c; d] ->
+            to_surface_mcnp RS M_P [x1; y1; z1; x2; y2; z2; x3; y3; z3] = to_surface_mcnp RS M_P [a; b; c; d]).
+  { intros a b c d E. unfold to_surface_mcnp, normalize_surface. unfold p1, p2, p3 in E. rewrite E. reflexivity. }
+  destruct keep; cbn [scale4] in Hmodel.
+  - exists A, B, C, D. split; [reflexivity|].
+    apply (bridge_same_card _ _ _ _ (Hsame _ _ _ _ Hmodel)).
+    apply (bridge_scale _ _ (fM_p RS (1 / m * A) (1 / m * B) (1 / m * C) (1 / m * D)) _ (1 / m) Hk).
+    + intros [[x y] z]. cbn. ring.
+    + apply p_bridge. intros E. injection E as E1 E2 E3. apply Hn.
+      rewrite (Hz A E1), (Hz B E2), (Hz C E3). reflexivity.
+  - exists (- A), (- B), (- C), (- D). split; [reflexivity|].
+    apply (bridge_same_card _ _ _ _ (Hsame _ _ _ _ Hmodel)).
+    apply (bridge_scale _ _ (fM_p RS (1 / m * - A) (1 / m * - B) (1 / m * - C) (1 / m * - D)) _ (1 / m) Hk).
+    + intros [[x y] z]. cbn. ring.
+    + apply p_bridge. intros E. injection E as E1 E2 E3. apply Hn.
+      apply Hz in E1, E2, E3. f_equal; [f_equal|]; lra.
+Qed.
+
+(* X / Y / Z: one pair, equal abscissae, equal radii *)
+Lemma x2_bridge x1 r : bridge M_X [x1; r] (mkMsurf (fM_px RS x1) None).
+Proof. two_bridge 1. ring. Qed.
+Lemma y2_bridge x1 r : bridge M_Y [x1; r] (mkMsurf (fM_py RS x1) None).
+Proof. two_bridge 1. ring. Qed.
+Lemma z2_bridge x1 r : bridge M_Z [x1; r] (mkMsurf (fM_pz RS x1) None).
+Proof. two_bridge 1. ring. Qed.
+
+Ltac xyz_plane_bridge := unfold bridge, to_surface_mcnp; cbn; consts; cbn; two_bridge 1; ring.
+Lemma x_plane_bridge x1 r1 r2 : bridge M_X [x1; r1; x1; r2] (mkMsurf (fM_px RS x1) None).
+Proof. xyz_plane_bridge. Qed.
+Lemma y_plane_bridge x1 r1 r2 : bridge M_Y [x1; r1; x1; r2] (mkMsurf (fM_py RS x1) None).
+Proof. xyz_plane_bridge. Qed.
+Lemma z_plane_bridge x1 r1 r2 : bridge M_Z [x1; r1; x1; r2] (mkMsurf (fM_pz RS x1) None).
+Proof. xyz_plane_bridge. Qed.
+
+Ltac xyz_cyl_bridge Hx :=
+  unfold bridge, to_surface_mcnp; cbn; rewrite (proj2 (Reqb_false _ _) Hx); consts; cbn;
+  two_bridge 1; ring.
+Lemma x_cyl_bridge x1 x2 r : x1 <> x2 -> bridge M_X [x1; r; x2; r] (mkMsurf (fM_cx RS r) None).
+Proof. intros Hx. xyz_cyl_bridge Hx. Qed.
+Lemma y_cyl_bridge x1 x2 r : x1 <> x2 -> bridge M_Y [x1; r; x2; r] (mkMsurf (fM_cy RS r) None).
+Proof. intros Hx. xyz_cyl_bridge Hx. Qed.
+Lemma z_cyl_bridge x1 x2 r : x1 <> x2 -> bridge M_Z [x1; r; x2; r] (mkMsurf (fM_cz RS r) None).
+Proof. intros Hx. xyz_cyl_bridge Hx. Qed.
+
+Lemma one_sheet_frame_k (s : M4.msurf R) (f g : pointR -> R) (n : Z) k :
+  S4.sheet_of s = n -> n <> 0%Z -> 0 < k ->
+  (forall P, S4.msense s P = f (pt3 P)) ->
+  (forall P, k * (IZR n * S4.axial (M4.mpt s) (M4.maxis s) P) = g (pt3 P)) ->
+  forall P, (S4.mneg s P <-> neg_sense (mkMsurf f (Some g)) (pt3 P)) /\
+            (S4.mpos s P <-> pos_sense (mkMsurf f (Some g)) (pt3 P)).
+Proof.
+  intros Hs Hn Hk Hf Hg P. unfold S4.mneg, S4.mpos, neg_sense, pos_sense. cbn [m_f m_sheet].
+  rewrite Hs, Hf, <- Hg. split; split.
+  - intros [H [H0|H0]]; [contradiction|]. split; [exact H|nra].
+  - intros [H H0]. split; [exact H|right; nra].
+  - intros [H|[_ H]]; [left; exact H|right; nra].
+  - intros [H|H]; [left; exact H|right; split; [exact Hn|nra]].
+Qed.
+
+Lemma x_cone_bridge x1 r1 x2 r2 :
+  x1 <> x2 -> r1 <> r2 -> 0 <= r1 -> 0 <= r2 ->
+  bridge M_X [x1; r1; x2; r2]
+    (mkMsurf (fM_kx RS (xyz_apex RS x1 r1 x2 r2) (xyz_t2 RS x1 r1 x2 r2))
+             (Some (fun p => axial_x RS (xyz_apex RS x1 r1 x2 r2) p
+                             * ((x1 - xyz_apex RS x1 r1 x2 r2) + (x2 - xyz_apex RS x1 r1 x2 r2))))).
+Proof.
+  intros Hx Hr H1 H2. unfold bridge, to_surface_mcnp. cbn.
+  replace (Reqb x1 x2) with false by (symmetry; apply Reqb_false; exact Hx).
+  replace (Reqb r1 r2) with false by (symmetry; apply Reqb_false; exact Hr).
+  assert (Hd : x1 - x2 <> 0) by lra.
+  assert (Hs : (r2 - r1) / (x2 - x1) = (r1 - r2) / (x1 - x2)) by (field; lra).
+  rewrite Hs. set (t := (r1 - r2) / (x1 - x2)).
+  assert (Ht : t <> 0).
+  { unfold t. intros E. apply (Rmult_eq_compat_r (x1 - x2)) in E. unfold Rdiv in E.
+    rewrite Rmult_assoc, Rinv_l, Rmult_1_r, Rmult_0_l in E by exact Hd. lra. }
+  assert (Hsum : x1 - (x1 - r1 / t) + (x2 - (x1 - r1 / t)) = (r1 + r2) / t).
+  { unfold t. field. split; lra. }
+  assert (Hlt : 2 * (x1 - r1 / t) < x1 + x2 <-> 0 < (r1 + r2) / t).
+  { rewrite <- Hsum. split; intros; lra. }
+  clearbody t.
+  replace (Reqb t 0) with false by (symmetry; apply Reqb_false; exact Ht).
+  assert (Hpos : 0 < r1 + r2) by lra.
+  destruct (Rltb (2 * (x1 - r1 / t)) (x1 + x2)) eqn:En;
+    [apply Rltb_true in En; apply Hlt in En | apply Rltb_false in En].
+  - cbn. eexists _, _; split; [reflexivity|]; split; [cbn; rewrite nappe_Z_1; reflexivity|].
+    split; [wf_frame; auto|].
+    eapply (one_sheet_frame_k _ _ _ 1%Z ((r1 + r2) / t)); [reflexivity|discriminate|exact En| |].
+    + intros [x y z]; unf4. rewrite tan_atan, Rabs_sq. ring.
+    + intros [x y z]; unf4. rewrite Hsum. ring.
+  - assert (En' : (r1 + r2) / t < 0).
+    { destruct (Rle_lt_or_eq_dec ((r1 + r2) / t) 0) as [Hl|He]; [|exact Hl|].
+      - apply Rnot_lt_le. intros Hc. apply Hlt in Hc. lra.
+      - exfalso. apply (Rmult_eq_compat_r t) in He. unfold Rdiv in He.
+        rewrite Rmult_assoc, Rinv_l, Rmult_1_r, Rmult_0_l in He by exact Ht. lra. }
+    cbn. eexists _, _; split; [reflexivity|]; split; [cbn; rewrite nappe_Z_m1; reflexivity|].
+    split; [wf_frame; auto|].
+    eapply (one_sheet_frame_k _ _ _ (-1)%Z (- ((r1 + r2) / t))); [reflexivity|discriminate|lra| |].
+    + intros [x y z]; unf4. rewrite tan_atan, Rabs_sq. ring.
+    + intros [x y z]; unf4. rewrite Hsum. ring.
+Qed.
+
+Lemma y_cone_bridge x1 r1 x2 r2 :
+  x1 <> x2 -> r1 <> r2 -> 0 <= r1 -> 0 <= r2 ->
+  bridge M_Y [x1; r1; x2; r2]
+    (mkMsurf (fM_ky RS (xyz_apex RS x1 r1 x2 r2) (xyz_t2 RS x1 r1 x2 r2))
+             (Some (fun p => axial_y RS (xyz_apex RS x1 r1 x2 r2) p
+                             * ((x1 - xyz_apex RS x1 r1 x2 r2) + (x2 - xyz_apex RS x1 r1 x2 r2))))).
+Proof.
+  intros Hx Hr H1 H2. unfold bridge, to_surface_mcnp. cbn.
+  replace (Reqb x1 x2) with false by (symmetry; apply Reqb_false; exact Hx).
+  replace (Reqb r1 r2) with false by (symmetry; apply Reqb_false; exact Hr).
+  assert (Hd : x1 - x2 <> 0) by lra.
+  assert (Hs : (r2 - r1) / (x2 - x1) = (r1 - r2) / (x1 - x2)) by (field; lra).
+  rewrite Hs. set (t := (r1 - r2) / (x1 - x2)).
+  assert (Ht : t <> 0).
+  { unfold t. intros E. apply (Rmult_eq_compat_r (x1 - x2)) in E. unfold Rdiv in E.
+    rewrite Rmult_assoc, Rinv_l, Rmult_1_r, Rmult_0_l in E by exact Hd. lra. }
+  assert (Hsum : x1 - (x1 - r1 / t) + (x2 - (x1 - r1 / t)) = (r1 + r2) / t).
+  { unfold t. field. split; lra. }
+  assert (Hlt : 2 * (x1 - r1 / t) < x1 + x2 <-> 0 < (r1 + r2) / t).
+  { rewrite <- Hsum. split; intros; lra. }
+  clearbody t.
+  replace (Reqb t 0) with false by (symmetry; apply Reqb_false; exact Ht).
+  assert (Hpos : 0 < r1 + r2) by lra.
+  destruct (Rltb (2 * (x1 - r1 / t)) (x1 + x2)) eqn:En;
+    [apply Rltb_true in En; apply Hlt in En | apply Rltb_false in En].
+  - cbn. eexists _, _; split; [reflexivity|]; split; [cbn; rewrite nappe_Z_1; reflexivity|].
+    split; [wf_frame; auto|].
+    eapply (one_sheet_frame_k _ _ _ 1%Z ((r1 + r2) / t)); [reflexivity|discriminate|exact En| |].
+    + intros [x y z]; unf4. rewrite tan_atan, Rabs_sq. ring.
+    + intros [x y z]; unf4. rewrite Hsum. ring.
+  - assert (En' : (r1 + r2) / t < 0).
+    { destruct (Rle_lt_or_eq_dec ((r1 + r2) / t) 0) as [Hl|He]; [|exact Hl|].
+      - apply Rnot_lt_le. intros Hc. apply Hlt in Hc. lra.
+      - exfalso. apply (Rmult_eq_compat_r t) in He. unfold Rdiv in He.
+        rewrite Rmult_assoc, Rinv_l, Rmult_1_r, Rmult_0_l in He by exact Ht. lra. }
+    cbn. eexists _, _; split; [reflexivity|]; split; [cbn; rewrite nappe_Z_m1; reflexivity|].
+    split; [wf_frame; auto|].
+    eapply (one_sheet_frame_k _ _ _ (-1)%Z (- ((r1 + r2) / t))); [reflexivity|discriminate|lra| |].
+    + intros [x y z]; unf4. rewrite tan_atan, Rabs_sq. ring.
+    + intros [x y z]; unf4. rewrite Hsum. ring.
+Qed.
+
+Lemma z_cone_bridge x1 r1 x2 r2 :
+  x1 <> x2 -> r1 <> r2 -> 0 <= r1 -> 0 <= r2 ->
+  bridge M_Z [x1; r1; x2; r2]
+    (mkMsurf (fM_kz RS (xyz_apex RS x1 r1 x2 r2) (xyz_t2 RS x1 r1 x2 r2))
+             (Some (fun p => axial_z RS (xyz_apex RS x1 r1 x2 r2) p
+                             * ((x1 - xyz_apex RS x1 r1 x2 r2) + (x2 - xyz_apex RS x1 r1 x2 r2))))).
+Proof.
+  intros Hx Hr H1 H2. unfold bridge, to_surface_mcnp. cbn.
+  replace (Reqb x1 x2) with false by (symmetry; apply Reqb_false; exact Hx).
+  replace (Reqb r1 r2) with false by (symmetry; apply Reqb_false; exact Hr).
+  assert (Hd : x1 - x2 <> 0) by lra.
+  assert (Hs : (r2 - r1) / (x2 - x1) = (r1 - r2) / (x1 - x2)) by (field; lra).
+  rewrite Hs. set (t := (r1 - r2) / (x1 - x2)).
+  assert (Ht : t <> 0).
+  { unfold t. intros E. apply (Rmult_eq_compat_r (x1 - x2)) in E. unfold Rdiv in E.
+    rewrite Rmult_assoc, Rinv_l, Rmult_1_r, Rmult_0_l in E by exact Hd. lra. }
+  assert (Hsum : x1 - (x1 - r1 / t) + (x2 - (x1 - r1 / t)) = (r1 + r2) / t).
+  { unfold t. field. split; lra. }
+  assert (Hlt : 2 * (x1 - r1 / t) < x1 + x2 <-> 0 < (r1 + r2) / t).
+  { rewrite <- Hsum. split; intros; lra. }
+  clearbody t.
+  replace (Reqb t 0) with false by (symmetry; apply Reqb_false; exact Ht).
+  assert (Hpos : 0 < r1 + r2) by lra.
+  destruct (Rltb (2 * (x1 - r1 / t)) (x1 + x2)) eqn:En;
+    [apply Rltb_true in En; apply Hlt in En | apply Rltb_false in En].
+  - cbn. eexists _, _; split; [reflexivity|]; split; [cbn; rewrite nappe_Z_1; reflexivity|].
+    split; [wf_frame; auto|].
+    eapply (one_sheet_frame_k _ _ _ 1%Z ((r1 + r2) / t)); [reflexivity|discriminate|exact En| |].
+    + intros [x y z]; unf4. rewrite tan_atan, Rabs_sq. ring.
+    + intros [x y z]; unf4. rewrite Hsum. ring.
+  - assert (En' : (r1 + r2) / t < 0).
+    { destruct (Rle_lt_or_eq_dec ((r1 + r2) / t) 0) as [Hl|He]; [|exact Hl|].
+      - apply Rnot_lt_le. intros Hc. apply Hlt in Hc. lra.
+      - exfalso. apply (Rmult_eq_compat_r t) in He. unfold Rdiv in He.
+        rewrite Rmult_assoc, Rinv_l, Rmult_1_r, Rmult_0_l in He by exact Ht. lra. }
+    cbn. eexists _, _; split; [reflexivity|]; split; [cbn; rewrite nappe_Z_m1; reflexivity|].
+    split; [wf_frame; auto|].
+    eapply (one_sheet_frame_k _ _ _ (-1)%Z (- ((r1 + r2) / t))); [reflexivity|discriminate|lra| |].
+    + intros [x y z]; unf4. rewrite tan_atan, Rabs_sq. ring.
+    + intros [x y z]; unf4. rewrite Hsum. ring.
+Qed.
+
+(* ---------- every mnemonic but the tori ---------- *)
+Definition linkable_all (mn : mnem) : Prop :=
+  match mn with M_T | M_TX | M_TY | M_TZ | M_C | M_K => False | _ => True end.
+
+Theorem frame_sense_all mn prm ms :
+  linkable_all mn -> mcnp_surface RS mn prm = Some ms -> admissible mn prm -> bridge mn prm ms.
+Proof.
+  intros Hl H Ha.
+  assert (Hold : linkable mn prm -> bridge mn prm ms) by (intros Hk; exact (frame_sense mn prm ms Hk H Ha)).
+  destruct mn; cbn [linkable_all] in Hl; try contradiction; try (apply Hold; exact I).
+  - (* P *) cbn [mcnp_surface] in H. peel H.
+    + apply Hold. reflexivity.
+    + destruct (p9_bridge _ _ _ _ _ _ _ _ _ Ha) as (A & B & C & D & Hp & Hbr).
+      cbv zeta in Hp. rewrite Hp in H. inversion H; subst. exact Hbr.
+  - (* X *) cbn [mcnp_surface] in H. unfold xyz_card in H. peel H.
+    + twob H x2_bridge.
+    + cbn [seqb RS] in H. destruct (Reqb r r1) eqn:Ex.
+      * apply Reqb_true in Ex. subst. twob H x_plane_bridge.
+      * apply Reqb_false in Ex. destruct (Reqb r0 r2) eqn:Er.
+        -- apply Reqb_true in Er. subst. twob H x_cyl_bridge. exact Ex.
+        -- apply Reqb_false in Er. cbn in Ha.
+           destruct Ha as [Ha|[Ha|[Ha1 Ha2]]]; [contradiction|contradiction|].
+           inversion H; subst. exact (x_cone_bridge r r0 r1 r2 Ex Er Ha1 Ha2).
+  - (* Y *) cbn [mcnp_surface] in H. unfold xyz_card in H. peel H.
+    + twob H y2_bridge.
+    + cbn [seqb RS] in H. destruct (Reqb r r1) eqn:Ex.
+      * apply Reqb_true in Ex. subst. twob H y_plane_bridge.
+      * apply Reqb_false in Ex. destruct (Reqb r0 r2) eqn:Er.
+        -- apply Reqb_true in Er. subst. twob H y_cyl_bridge. exact Ex.
+        -- apply Reqb_false in Er. cbn in Ha.
+           destruct Ha as [Ha|[Ha|[Ha1 Ha2]]]; [contradiction|contradiction|].
+           inversion H; subst. exact (y_cone_bridge r r0 r1 r2 Ex Er Ha1 Ha2).
+  - (* Z *) cbn [mcnp_surface] in H. unfold xyz_card in H. peel H.
+    + twob H z2_bridge.
+    + cbn [seqb RS] in H. destruct (Reqb r r1) eqn:Ex.
+      * apply Reqb_true in Ex. subst. twob H z_plane_bridge.
+      * apply Reqb_false in Ex. destruct (Reqb r0 r2) eqn:Er.
+        -- apply Reqb_true in Er. subst. twob H z_cyl_bridge. exact Ex.
+        -- apply Reqb_false in Er. cbn in Ha.
+           destruct Ha as [Ha|[Ha|[Ha1 Ha2]]]; [contradiction|contradiction|].
+           inversion H; subst. exact (z_cone_bridge r r0 r1 r2 Ex Er Ha1 Ha2).
+Qed.
+
+Lemma card_tr_of_bridge mn prm ms o b :
+  S4.rows_orthonormal b -> bridge mn prm ms ->
+  exists coll, card_tr_convert (C4.tr12 o b) mn prm = M4.Ok coll /\
+    forall p', (S4.coll_neg coll (S4.to_main o b p') <-> neg_sense ms (pt3 p')) /\
+               (S4.coll_pos coll (S4.to_main o b p') <-> pos_sense ms (pt3 p')).
+Proof.
+  intros Hb (c & s & H1 & H2 & Hw & Hsense).
+  destruct (T4.transformation_law o b s Hb (proj1 Hw)) as (s' & Htr & _ & Hmove).
+  pose proof (moved_conv_wf o b s s' Hb Hw Htr) as Hcw.
+  destruct (T4.convert_law s' Hcw) as (coll & Hconv & Hreg).
+  exists coll. split.
+  - unfold card_tr_convert, card_tr_convert_g. rewrite H1. fold to_ms. rewrite H2.
+    unfold M4.tr_convert. rewrite Htr. exact Hconv.
+  - intros p'. destruct (Hreg (S4.to_main o b p')) as [Rn Rp].
+    destruct (Hmove p') as [Mn Mp]. destruct (Hsense p') as [Sn Sp].
+    split; [rewrite <- Rn, Mn; exact Sn | rewrite <- Rp, Mp; exact Sp].
+Qed.
+
+(* the linked statement for every mnemonic of the property except the tori
+   (torus_tr_linked), incl. the nine-entry P and the point-defined X / Y / Z *)
+Theorem text_every_card_linked_all txt bc name tr ty prm mn ms n o b trs :
+  parse_surface_card RS txt = Ok (bc, name, tr, ty, prm) ->
+  tr_number tr = Some n -> M4.lookup n trs = M4.Ok (C4.tr12 o b) -> S4.rows_orthonormal b ->
+  classify ty = TyMnem mn -> linkable_all mn ->
+  mcnp_surface RS mn prm = Some ms -> admissible mn prm ->
+  exists coll, convert_text_tr trs txt = M4.Ok coll /\
+    forall p', (S4.coll_neg coll (S4.to_main o b p') <-> neg_sense ms (pt3 p')) /\
+               (S4.coll_pos coll (S4.to_main o b p') <-> pos_sense ms (pt3 p')).
+Proof.
+  intros Hp Hn Hlk Hb Hc Hl Hs Ha.
+  destruct (card_tr_of_bridge mn prm ms o b Hb (frame_sense_all mn prm ms Hl Hs Ha)) as (coll & Hcv & Hreg).
+  exists coll. split; [|exact Hreg].
+  unfold convert_text_tr. rewrite Hp, Hc, Hn, Hlk. exact Hcv.
+Qed.
